@@ -94,3 +94,17 @@ Lemma hops_u8_refuted :
   aslen_u8_pre Release (length b) b 0 = Ok 0 /\
   aslen_loop (length b) b 0 = 256.
 Proof. repeat split; vm_compute; reflexivity. Qed.
+
+(* C14-1: the set {general pattern 1} with ANY on the path 65001: the old code
+   said "no match" whatever the pattern; the reference says the condition holds
+   when the pattern matches the rendered path *)
+Lemma aspath_regex_ignored_refuted :
+  exists s x r,
+    cond_aspath_noregex_pre MAny s (aspath_segs 6 [2; 1; 0; 0; 253; 233]) = false /\
+    forall rc re rl rp,
+      cond_holds rc re rl (fun _ _ => true) rp x r (CSet 1 MAny (SAsPath s)).
+Proof.
+  exists {| ap_single := []; ap_regex := [1] |}, w_ctx, w_route. split; [vm_compute; reflexivity|].
+  intros rc re rl rp. cbn [cond_holds opt_holds]. exists (inr 1). split; [left; reflexivity|].
+  cbn [aspath_pat_holds]. eexists. split; reflexivity.
+Qed.
